@@ -41,7 +41,7 @@ func PfxBFS(r *Run, roots [][]byte, visit Visit, maxStates int) PfxStats {
 var Complete func(w []byte) []byte
 
 // SuffixMenu is appended to every expanded node (see PfxBFSDelta).
-var SuffixMenu = []string{".5", ".5e1", "e1", "E+1", "e-0", "5", "00", "-", "+1", "null", "true", "false", "0", "-1", "1.5e1", `"x"`, "[]", "{}", " null", "\tnull ", "nullx", "ull", "rue", ",null", ":null", "]", "}", "null]", "null}", `"x":null}`}
+var SuffixMenu = []string{"nan", "NaN", "inf", "Infinity", "+inf", "-inf", "-Infinity", "+1", "0x10", "1_0", "5.", "TRUE", "Null", "nil", "undefined", "'x'", ".5", ".5e1", "e1", "E+1", "e-0", "5", "00", "-", "+1", "null", "true", "false", "0", "-1", "1.5e1", `"x"`, "[]", "{}", " null", "\tnull ", "nullx", "ull", "rue", ",null", ":null", "]", "}", "null]", "null}", `"x":null}`}
 
 // NonJSONSpaces are white space in Unicode / Go's unicode.IsSpace / other parsers, not in JSON.
 var NonJSONSpaces = []string{"\v", "\f", "\x85", "\xa0", "\x00", "\xc2\x85", "\xc2\xa0", "\xe1\x9a\x80", "\xe2\x80\x83", "\xe2\x80\xa8", "\xe2\x80\xa9", "\xe3\x80\x80", "\xef\xbb\xbf", "\x1c", "\x1f",
